@@ -52,6 +52,8 @@ type Engine struct {
 	contractFiles []string
 
 	heapSortHint map[string]Sort
+	driftSeen    map[string]bool
+	driftNotes   []string
 	trigSorts    map[string]Sort
 	heapTypeHint map[string]types.Type
 	modsMemo     map[*ssa.Function]map[string]bool
@@ -150,6 +152,24 @@ func NewEngine(repo string) (*Engine, error) {
 }
 
 // LoadContracts reads /repo/**/contracts_verif.go and /verif/specs/*.spec .
+// skipDrift: a contract of a /repo contract file names a function (closure, loop owner, callee) that no longer exists in the
+// code. The contract is set aside with a warning (the functions that remain are still checked); it is not a load error.
+func (e *Engine) skipDrift(c *Contract, err error) bool {
+	if err == nil || !strings.Contains(err.Error(), "resolves to no function") || strings.HasSuffix(c.File, ".spec") {
+		return false
+	}
+	msg := fmt.Sprintf("contract drift: %v", err)
+	if !e.driftSeen[msg] {
+		if e.driftSeen == nil {
+			e.driftSeen = map[string]bool{}
+		}
+		e.driftSeen[msg] = true
+		fmt.Fprintln(os.Stderr, "warning:", msg)
+		e.driftNotes = append(e.driftNotes, msg)
+	}
+	return true
+}
+
 func (e *Engine) LoadContracts(specDir string) error {
 	var all []*Contract
 	specs, _ := filepath.Glob(filepath.Join(specDir, "*.spec"))
@@ -229,6 +249,9 @@ func (e *Engine) LoadContracts(specDir string) error {
 		case "func", "trusted":
 			key, err := e.resolveFuncName(c)
 			if err != nil {
+				if e.skipDrift(c, err) {
+					continue
+				}
 				return err
 			}
 			if prev, dup := e.contracts[key]; dup {
@@ -283,6 +306,9 @@ func (e *Engine) LoadContracts(specDir string) error {
 			fc.Name = c.Name[:i]
 			key, err := e.resolveFuncName(&fc)
 			if err != nil {
+				if e.skipDrift(c, err) {
+					continue
+				}
 				return err
 			}
 			e.loopContracts[key+c.Name[i:]] = c
@@ -305,12 +331,18 @@ func (e *Engine) LoadContracts(specDir string) error {
 			cc.Name = c.Caller
 			caller, err := e.resolveFuncName(&cc)
 			if err != nil {
+				if e.skipDrift(c, err) {
+					continue
+				}
 				return err
 			}
 			callee, err := e.resolveFuncName(c)
 			if err != nil {
 				// a callback (assume-call) named by its struct field or parameter
 				if _, err2 := e.resolveCallbackName(c); err2 != nil {
+					if e.skipDrift(c, err) {
+						continue
+					}
 					return err
 				}
 				callee = c.Name
@@ -333,6 +365,9 @@ func (e *Engine) LoadContracts(specDir string) error {
 			fc.Name = f[0]
 			fk, err := e.resolveFuncName(&fc)
 			if err != nil {
+				if e.skipDrift(c, err) {
+					continue
+				}
 				return err
 			}
 			ev := f[1]
@@ -347,6 +382,9 @@ func (e *Engine) LoadContracts(specDir string) error {
 				cc.Name = f[2]
 				ck, err := e.resolveFuncName(&cc)
 				if err != nil {
+					if e.skipDrift(c, err) {
+						continue
+					}
 					return err
 				}
 				ev = "call:" + ck
@@ -412,12 +450,18 @@ func (e *Engine) LoadContracts(specDir string) error {
 		case "implements":
 			fk, err := e.resolveFuncName(c)
 			if err != nil {
+				if e.skipDrift(c, err) {
+					continue
+				}
 				return err
 			}
 			ic := *c
 			ic.Name = c.As
 			ik, err := e.resolveFuncName(&ic)
 			if err != nil {
+				if e.skipDrift(c, err) {
+					continue
+				}
 				return err
 			}
 			c.Name, c.As = fk, ik
@@ -425,6 +469,9 @@ func (e *Engine) LoadContracts(specDir string) error {
 		case "assume-call":
 			key, err := e.resolveCallbackName(c)
 			if err != nil {
+				if e.skipDrift(c, err) {
+					continue
+				}
 				return err
 			}
 			e.callbacks[key] = c
